@@ -357,7 +357,8 @@ def unrename_locals(prog):
 
 # ---------------------------------------------------------------------------------------- P13 (new pure locals are inlined)
 PURE_CALLS = {"len", "range", "list", "tuple", "zip", "enumerate", "sorted", "dict", "set", "min", "max", "sum", "abs", "isinstance", "hasattr", "bool", "int", "float",
-              "vertcat", "horzcat", "veccat", "vvcat", "vcat", "hcat", "MX", "DM", "repmat", "reversed", "any", "all"}
+              "vertcat", "horzcat", "veccat", "vvcat", "vcat", "hcat", "MX", "DM", "repmat", "reversed", "any", "all",
+              "depends_on", "symvar", "is_equal", "str", "repr", "getattr", "type"}
 
 
 def _is_pure(v):
@@ -502,10 +503,18 @@ def inline_new_locals(prog):
                     fresh = isinstance(st.value, (ast.List, ast.Dict, ast.Set, ast.ListComp, ast.DictComp, ast.SetComp)) or \
                         (isinstance(st.value, ast.Call) and isinstance(st.value.func, ast.Name) and st.value.func.id in ("list", "dict", "set", "sorted", "defaultdict", "OrderedDict"))
                     if fresh:
-                        if uses_total != 1:
-                            continue
                         if any(_mutates(s_, {name}, None) for s_ in after):
                             continue
+                        if uses_total != 1:
+                            # a dict literal that is only handed on (f(**d), g(d, ..)) may be written out at each use
+                            handed_on = isinstance(st.value, ast.Dict)
+                            for s_ in after:
+                                for n in ast.walk(s_):
+                                    for ch in ast.iter_child_nodes(n):
+                                        if isinstance(ch, ast.Name) and ch.id == name and not isinstance(n, (ast.Call, ast.keyword)):
+                                            handed_on = False
+                            if not handed_on:
+                                continue
                     last = max(j for j, s_ in enumerate(after) if any(isinstance(n, ast.Name) and n.id == name for n in ast.walk(s_)))
                     paths = _read_paths(st.value) - {name}
                     if not adjacent_temp and any(_mutates(s_, paths, None) for s_ in after[:last + 1]):
@@ -613,6 +622,25 @@ class _Canon(ast.NodeTransformer):
             return self.visit(ast.copy_location(ast.UnaryOp(op=ast.Not(), operand=n.left), n))
         return n
 
+    def _project(self, n):
+        # P18: [a for (a, b, c) in L] -> [t[0] for t in L]  (single generator, tuple target, the element is one of its names,
+        # the other names are unused)
+        self.generic_visit(n)
+        if len(n.generators) == 1 and isinstance(n.elt, ast.Name):
+            g = n.generators[0]
+            if isinstance(g.target, ast.Tuple) and all(isinstance(e, ast.Name) for e in g.target.elts) and not g.ifs:
+                names = [e.id for e in g.target.elts]
+                if names.count(n.elt.id) == 1:
+                    idx = names.index(n.elt.id)
+                    tv = "t_"
+                    g.target = ast.copy_location(ast.Name(id=tv, ctx=ast.Store()), g.target)
+                    n.elt = ast.copy_location(ast.Subscript(value=ast.Name(id=tv, ctx=ast.Load()), slice=ast.Constant(value=idx), ctx=ast.Load()), n.elt)
+                    self.count += 1
+        return n
+
+    visit_ListComp = _project
+    visit_GeneratorExp = _project
+
     def visit_UnaryOp(self, n):
         # P14: not (a OP b) -> a NEG(OP) b for a single comparison; not not B -> B
         self.generic_visit(n)
@@ -700,6 +728,23 @@ class _Canon(ast.NodeTransformer):
 
     def visit_Call(self, n):
         self.generic_visit(n)
+        # P15: (A if c else B)(args) -> A(args) if c else B(args)
+        if isinstance(n.func, ast.IfExp):
+            f = n.func
+            self.count += 1
+            a = ast.Call(func=f.body, args=n.args, keywords=n.keywords)
+            b = ast.Call(func=f.orelse, args=copy.deepcopy(n.args), keywords=copy.deepcopy(n.keywords))
+            return ast.copy_location(ast.IfExp(test=f.test, body=ast.copy_location(a, n), orelse=ast.copy_location(b, n)), n)
+        # P16: f(**{'a': x, 'b': y}) -> f(a=x, b=y)
+        if any(k.arg is None and isinstance(k.value, ast.Dict) and all(isinstance(kk, ast.Constant) and isinstance(kk.value, str) for kk in k.value.keys) for k in n.keywords):
+            kws = []
+            for k in n.keywords:
+                if k.arg is None and isinstance(k.value, ast.Dict) and all(isinstance(kk, ast.Constant) and isinstance(kk.value, str) for kk in k.value.keys):
+                    kws += [ast.keyword(arg=kk.value, value=vv) for kk, vv in zip(k.value.keys, k.value.values)]
+                else:
+                    kws.append(k)
+            n.keywords = kws
+            self.count += 1
         # P6: dict(a=x, b=y) -> {'a': x, 'b': y}
         if isinstance(n.func, ast.Name) and n.func.id == "dict" and not n.args and n.keywords and all(k.arg is not None for k in n.keywords):
             self.count += 1
